@@ -13,6 +13,16 @@ var realWire = []string{"protocol/binary (Reader, StreamReader, StreamWriter, Wr
 var stubWire = []string{"caller-supplied io.Reader / io.Seeker / io.ReaderAt / io.Writer -> simio (delivery schedule and faults are choices; stays inside the io contracts)", "sync.Pool -> simulated pool (reuse order, drops and New calls are choices; double-Put and write-after-Put detectors)", "Go map iteration order -> seeded permutation", "peer process -> simulator task over a simulated pipe (client/server runs)"}
 
 var specs = map[string]Spec{
+	"C04": {
+		Prop: "C04", Engine: "wire-world", Level: "exploration", Binary: "root",
+		Quick:    Tier{Count: 320000, BudgetS: 40},
+		Thorough: Tier{Count: 32000000, BudgetS: 900},
+		Rule: "one run = one struct-like type of the regenerated corpus (all types of gen/internal/tests/thrift, plugin/api.thrift and verif/schemas, regenerated from the tree's own templates) and either (deserialization) a byte string - the encoding of a valid Go value built by reflection, optionally put through 1-3 schema-evolution edits on the value tree (add / retype / drop / duplicate / renumber field, change a container's element type, recursively) or 1-3 byte-level mutations - run through FromWire(Decode(b)) and through T.Decode(stream reader) under 4 (thorough 8) seeded delivery schedules incl. truncation and I/O errors; or (serialization) a Go value, valid or damaged (required pointer nil, extra union member, nil element in a container, nil container), run through Encode(stream writer) and through ToWire+Encode. " +
+			"Every run is non-trivial; distinct = distinct choice lists. Per-type hit counts are in coverage.counts.",
+		RealComp: realWire, StubComp: stubWire,
+		Assume: []string{"declared container counts above 32768 in mutated inputs are capped by the harness so that the pre-sizing weakness described by C13 cannot exhaust memory here; nothing about it is reported",
+			"values are compared through their ToWire trees (sets and maps order-insensitive, doubles by bits)", "nothing is asserted about which inputs must be rejected (C01/C05)"},
+	},
 	"C12": {
 		Prop: "C12", Engine: "wire-world", Level: "exploration", Binary: "root",
 		Quick:    Tier{Count: 160000, BudgetS: 40},
